@@ -291,6 +291,10 @@ func recoverTable(s *session, o *opt.Options) error {
 	o = dupOptions(s.o.Options)
 	// Mask StrictReader, lets StrictRecovery doing its job.
 	o.Strict &= ^opt.StrictReader
+	if o.Strict == 0 {
+		// Zero means the defaults, which include StrictReader again.
+		o.Strict = opt.DefaultStrict &^ opt.StrictReader
+	}
 
 	// Get all tables and sort it by file number.
 	fds, err := s.stor.List(storage.TypeTable)
